@@ -66,15 +66,13 @@ def run(chk, replay=None):
     pool = cf.ThreadPoolExecutor(max_workers=5)
 
     # (M) store model: every history of insertions, exhaustively (runs while the drivers work)
-    # quick: all 26 operations, 3 large primes, length <= 4 (475 255 states).  thorough adds length 5 and 4 large
-    # primes with one parity for complete/double relations (16 / 25 operations), and - when there are enough cores for
-    # the 30 min budget - all 26 operations at length 5 (12.4 M states)
+    # quick: all 26 operations, 3 large primes, length <= 4 (475 255 states).  thorough adds all 26 operations at
+    # length 5 (12 356 631 states, 12 min with 4 workers) and 4 large primes at length 4 with one parity for
+    # complete/double relations (25 operations, 406 901 states)
     mc_cfgs = ["MC_RelStore_3_4.cfg"]
     if thorough:
-        mc_cfgs += ["MC_RelStore_3_5r.cfg", "MC_RelStore_4_4r.cfg"]
-        if core.NCPU >= 12 or os.environ.get("VERIF_C11_FULL5"):
-            mc_cfgs.append("MC_RelStore_3_5.cfg")
-    mcw = max(2, core.NCPU // (2 * len(mc_cfgs))) if core.NCPU < 12 else max(2, (core.NCPU - 4) // len(mc_cfgs))
+        mc_cfgs = ["MC_RelStore_3_5.cfg", "MC_RelStore_4_4r.cfg"]
+    mcw = max(2, core.NCPU // 2) if len(mc_cfgs) == 1 else max(2, (core.NCPU * 2 // 3) // len(mc_cfgs))
     mc_jobs = []
     if not replay:      # a replay only re-validates the recorded case
         mc_jobs = [pool.submit(core.model_check, "relstore/RelStore.tla", c, mcw, 7200) for c in mc_cfgs]
